@@ -6,14 +6,19 @@ This module uses the error codes 70-79.
 
 import jax
 import jax.numpy as jnp
+from jax.flatten_util import ravel_pytree
 
 from .types import Array, Position
 
-_vravel = jax.vmap(jnp.ravel, in_axes=0, out_axes=0)
+
+def _ravel_position(position: Position) -> Array:
+    return ravel_pytree(position)[0]
 
 
 def _history_to_matrix(history: Position) -> Array:
-    return jnp.column_stack([_vravel(x) for x in history.values()])
+    # one row per iteration; the columns must follow the order of the flat position used
+    # by the kernels (jax.flatten_util.ravel_pytree), not the order of the position keys
+    return jax.vmap(_ravel_position)(history)
 
 
 def tune_inv_mm_diag(history: Position) -> Array:
